@@ -55,11 +55,33 @@ func storeCleanupBeforeTheStoreIsUsed(c *eng.Ctx) {
 		sites := p.SitesInProgram(eng.AnyCallTo("kv.store.deleteObsoleteFiles"))
 		c.Check(len(sites) >= 1, "cleanup-found", nil, nil, "a store removes stale manifests when it is opened", "no call of store.deleteObsoleteFiles")
 		for i, s := range sites {
-			top := topFunc(c, s.Fn)
+			// followed up through a helper that has this one caller (finishInit called by newStore's deferred literal)
 			_, isGo := s.Instr.(*ssa.Go)
-			c.Check(top == "kv.newStore" && !isGo && !startedAsGoroutine(s.Fn), fmt.Sprintf("synchronous-in-newStore[%d]", i), s.Instr, s.Fn,
+			async := isGo
+			cur := s.Fn
+			top := topFunc(c, cur)
+			for hop := 0; hop < 3; hop++ {
+				async = async || startedAsGoroutine(cur)
+				top = topFunc(c, cur)
+				if top == "kv.newStore" {
+					break
+				}
+				root := cur
+				for root.Parent() != nil {
+					root = root.Parent()
+				}
+				callers := p.StaticCallers(root)
+				if len(callers) != 1 {
+					break
+				}
+				if _, g := callers[0].Instr.(*ssa.Go); g {
+					async = true
+				}
+				cur = callers[0].Fn
+			}
+			c.Check(top == "kv.newStore" && !async, fmt.Sprintf("synchronous-in-newStore[%d]", i), s.Instr, s.Fn,
 				"the manifest clean-up identifies the live manifest by ManifestFileNumber(), which every commit overwrites: it runs to completion inside newStore, before the store can be used - in a goroutine it races with the first commit and deletes the manifest CURRENT points to",
-				"called from "+top+", asynchronously: "+fmt.Sprint(isGo || startedAsGoroutine(s.Fn)))
+				"called from "+top+", asynchronously: "+fmt.Sprint(async))
 		}
 	})
 }
@@ -888,4 +910,85 @@ func measurementEndsAtTheFirstSeparator(c *eng.Ctx) {
 		}
 		c.Check(n >= 1, "tags-exit-found", nil, f, "scanMetricName has an exit for 'tags follow'", "")
 	})
+}
+
+// ---- C07-m19 (C07): a log directory is removed only for a partition that was found expired ----------------------------------------------------
+//
+// The garbage-collect goroutine runs from the moment the WAL manager is created, i.e. also while Recovery() is still loading
+// the logs of the previous run.  A directory may be deleted only (a) as the Path() of a tracked partition whose IsExpire()
+// said so (all groups drained), (b) as an EMPTY family directory, or (c) by Drop.  Deleting "orphan" directories found by
+// listing the disk removes the not-yet-loaded logs of a crashed process - unflushed, unacknowledged entries included.
+func logDirRemovedOnlyForAnExpiredPartition(c *eng.Ctx) {
+	p := c.P
+	c.Rule("PROV", "replica.writeAheadLog{a directory is removed as an expired partition's path, as an empty family directory, or by Drop}", func() {
+		n := 0
+		for _, fn := range p.AllFuncs {
+			k := p.FuncKey(fn)
+			if !strings.HasPrefix(k, "replica.writeAheadLog.") || fn.Blocks == nil {
+				continue
+			}
+			for _, s := range p.SitesDirect(fn, eng.Any(eng.CallTo("var:replica.removeDirFn"), eng.AnyCallTo("github.com/lindb/common/pkg/fileutil.RemoveDir", "os.RemoveAll"))) {
+				n++
+				if strings.HasSuffix(k, ".Drop") {
+					c.Check(true, fmt.Sprintf("%s:drop[%d]", k, n), s.Instr, fn, "Drop removes the whole log", "")
+					continue
+				}
+				args := eng.CallArgs(s.Instr.(ssa.CallInstruction))
+				isPath := len(args) >= 1 && eng.DependsOn(args[0], func(x ssa.Value) bool { return calleeName(x) == "Path" })
+				// an empty directory: guarded by len(listing) == 0 / > 0
+				emptyDir := false
+				conds, _ := eng.GuardingConds(fn, s.Instr)
+				for _, cd := range conds {
+					// len(listDirFn(<the removed directory>)) compared with the constant 0 - a loop bound over a listing is no emptiness test
+					bo, ok := eng.Unwrap(cd).(*ssa.BinOp)
+					if !ok {
+						continue
+					}
+					for _, pr := range [][2]ssa.Value{{bo.X, bo.Y}, {bo.Y, bo.X}} {
+						cl, ok := eng.Unwrap(pr[0]).(*ssa.Call)
+						if !ok {
+							continue
+						}
+						bi, isB := cl.Common().Value.(*ssa.Builtin)
+						if k0, isC := eng.ConstInt(pr[1]); !isB || bi.Name() != "len" || !isC || k0 != 0 {
+							continue
+						}
+						if eng.DependsOn(cl.Common().Args[0], func(y ssa.Value) bool {
+							if !strings.Contains(strings.Join(calleeKeysOf(p, y), " "), "listDirFn") {
+								return false
+							}
+							lc, _ := y.(*ssa.Call)
+							if ex, isE := y.(*ssa.Extract); isE {
+								lc, _ = ex.Tuple.(*ssa.Call)
+							}
+							return lc != nil && len(args) >= 1 && len(lc.Call.Args) >= 1 && eng.Unwrap(lc.Call.Args[0]) == eng.Unwrap(args[0])
+						}) {
+							emptyDir = true
+						}
+					}
+				}
+				expired := false
+				if isPath {
+					// the partition whose path it is came out of the "expired" selection: some IsExpire() call exists in the function
+					expired = len(p.Sites(fn, invokeOn("", "IsExpire"))) > 0
+				}
+				c.Check(isPath && expired || emptyDir, fmt.Sprintf("%s:removal-justified[%d]", k, n), s.Instr, fn,
+					"the log of a family is deleted through the partition that tracks it, after IsExpire() (every group drained) - never because a directory found on disk is not in the registry: during Recovery the registry is still being filled, and the GC goroutine is already running",
+					"removes "+p.Desc(args[0]))
+			}
+		}
+		c.Check(n >= 2, "removals-found", nil, nil, "the write ahead log removes directories", fmt.Sprintf("%d sites", n))
+	})
+}
+
+func calleeKeysOf(p *eng.Prog, v ssa.Value) []string {
+	if cl, ok := v.(*ssa.Call); ok {
+		return p.CalleeKeys(cl)
+	}
+	if ex, ok := v.(*ssa.Extract); ok {
+		if cl, ok := ex.Tuple.(*ssa.Call); ok {
+			return p.CalleeKeys(cl)
+		}
+	}
+	return nil
 }
